@@ -6,7 +6,7 @@ see them — nothing is re-implemented), and every synthesised loop as a model-A
 import random
 from fractions import Fraction as Fr
 
-from .analyze import _reset_settings, _err, eval_closed_form
+from .analyze import _reset_settings, _err, eval_closed_form, to_rational
 from .convert import program_json, fr_str, Unconvertible
 
 
@@ -34,6 +34,24 @@ def _rat(x):
     return sympy.Rational(f.numerator, f.denominator)
 
 
+def _exact(e):
+    """exact value of a closed sympy number.  An exact Rational is returned untouched: `sympy.nsimplify` is for
+    floats and rewrites some exact rationals into products of radicals (sympy 1.11.1: nsimplify(Rational(2668, 99))
+    = 7*2**(259/324)*3**(497/648)*5**(163/216)*7**(41/648)/4), which once corrupted one value of the F140 repair
+    (gen-146 of the thorough tier, seed 0) and would silently drop a solution in `poly_terms`.  Anything else is
+    decided by tasks/analyze.py:to_rational (expand / radsimp / simplify / minimal polynomial, never a float fit)."""
+    import sympy
+    e = sympy.sympify(e)
+    if e.is_Rational:
+        return e
+    if e.has(sympy.Float):
+        return sympy.nsimplify(e, rational=True)
+    tag, v = to_rational(e)[:2]
+    if tag == "q":
+        return _rat(v)
+    return e
+
+
 def _subs_by_name(expr, values):
     """replace every free symbol whose *name* is in `values` (sympy expression in, sympy out)"""
     import sympy
@@ -53,14 +71,14 @@ def poly_terms(expr, var_names):
     if other:
         raise Unconvertible(f"free symbols left in polynomial: {sorted(s.name for s in other)}")
     if not gens:
-        c = sympy.nsimplify(e)
+        c = _exact(e)
         if not c.is_Rational:
             raise Unconvertible(f"non-rational constant {e}")
         return [[[], f"{c.p}/{c.q}"]]
     p = sympy.Poly(e, *gens)
     out = []
     for exps, c in p.terms():
-        c = sympy.nsimplify(c)
+        c = _exact(c)
         if not c.is_Rational:
             raise Unconvertible(f"non-rational coefficient {c}")
         mono = [[g.name, int(k)] for g, k in zip(gens, exps) if k]
@@ -119,8 +137,21 @@ def _load(text=None, path=None):
     return Parser().parse_string(text)
 
 
+def _finite_types(program):
+    """number of values of every variable Polar declares `Finite` (powers >= that number are reduced by
+    RecBuilder._reduce_powers, smaller ones are kept)"""
+    out = {}
+    try:
+        for v in program.finite_variables:
+            out[str(v)] = len(program.get_type(v).values)
+    except Exception:  # noqa
+        pass
+    return out
+
+
 def _info(parsed_json, program):
     return {
+        "finite_types": _finite_types(program),
         "source_program": parsed_json,
         "variables": sorted(str(v) for v in program.variables),
         "original_variables": sorted(str(v) for v in program.original_variables),
@@ -231,7 +262,7 @@ def _solution_record(program, Q, f, cap_call, idx, seed, nmax):
         rec["Q_error"] = f"{type(ex).__name__}: {str(ex)[:160]}"
     if k_expr is not None:
         try:
-            kv = sympy.nsimplify(sympy.simplify(_subs_by_name(k_expr, values)))
+            kv = _exact(_subs_by_name(k_expr, values))
             rec["k"] = f"{kv.p}/{kv.q}" if kv.is_Rational else None
             rec["k_str"] = str(k_expr)[:200]
             rec["R"] = poly_terms(_subs_by_name(R_expr, {k: v for k, v in values.items() if k not in pvars}), pvars)
@@ -446,7 +477,7 @@ def repair_piecewise(text=None, path=None, inv_deg=1, mode="ksym", cand=None, se
             for ns in nsyms:
                 e = e.xreplace({ns: sympy.Integer(m)})
             e = _subs_by_name(e, {"n": Fr(m)})
-            return sympy.nsimplify(sympy.simplify(e))
+            return _exact(e)
         delta = {m: at(inh, m) - at(inh_gen, m) for m in range(1, nmax + 1)}
         subs0 = {k_: fr_str(v) for k_, v in values.items()}
         vals = []
@@ -458,7 +489,7 @@ def repair_piecewise(text=None, path=None, inv_deg=1, mode="ksym", cand=None, se
             tot = _rat(Fr(fv))
             for j in range(n_):
                 tot += kv ** j * delta[n_ - j]
-            tot = sympy.nsimplify(sympy.simplify(tot))
+            tot = _exact(tot)
             vals.append(f"{tot.p}/{tot.q}" if tot.is_Rational else str(tot))
         pvars = {str(v) for v in program.variables}
         try:
